@@ -226,6 +226,25 @@ func check(raw json.RawMessage, c *ccase, tc vlib.TConc, idx int) {
 			if !bytes.Equal(rawBytes(q), rawBytes(q2)) {
 				run.Violate(v.name, "bytes-differ", fmt.Sprintf("[%s %s] re-serialisation is not byte-identical", tag, v.name), raw, nil)
 			}
+			// a parsed profile is an ordinary value: edited in memory (the labels of every other sample removed, a
+			// comment added) and written again, the reader gets the edited profile - nothing of the old encoding
+			edited := false
+			for i, s := range q.Sample {
+				if i%2 == 0 && (len(s.Label) > 0 || len(s.NumLabel) > 0) {
+					s.Label, s.NumLabel, s.NumUnit = nil, nil, nil
+					edited = true
+				}
+			}
+			q.Comments = append(q.Comments, "edited")
+			wantE := vlib.ProjectFull(q)
+			q3, err := v.fn(q)
+			if err != nil {
+				run.Violate(v.name, "edited-error:"+v.name, err.Error(), raw, nil)
+				return
+			}
+			if g3 := vlib.ProjectFull(q3); !g3.Equal(wantE) {
+				run.Violate(v.name, "edited:"+what(g3, wantE), fmt.Sprintf("[%s %s] after editing a parsed profile in memory (labels removed: %v) the round trip gives\n%s\nwant\n%s", tag, v.name, edited, g3.JSON(), wantE.JSON()), raw, nil)
+			}
 		}()
 	}
 	// through the CLI path: pprof -proto output re-read
